@@ -1,16 +1,17 @@
 (* C19 -- show() draws each object where it is and does not alter it.
    Statements only; every proof is `exact <lemma>`.
 
-   PARTIAL: what is proved is the placement pipeline (frame selection, rigid placement, unit rescale,
-   path line, style save/replace/restore).  The per-class local shape generators (make_Cuboid ...
-   make_Sensor, traces_base.py: trigonometric vertex tables) are NOT modelled: in the theorems below the
-   local vertex list `local` of an object is an arbitrary input.  That the local vertices lie on the
-   object's surface and span its extent is checked on the implementation by the harness, not proved.
+   PARTIAL: what is proved is the placement pipeline (frame selection, rigid placement, unit rescale, path
+   line, style save/replace/restore) and three local shape generators that are exact tables: make_Cuboid, the
+   Polyline line, make_Triangle.  The other local shape generators (prisms, ellipsoids, cylinder segments,
+   arrows, sensor: trigonometric vertex tables in traces_core.py / traces_base.py) are NOT modelled: in
+   C19_drawn_copies_partial the local vertex list `local` is an arbitrary input, and that those local vertices
+   lie on the body's surface and span its extent is checked on the implementation by the harness, not proved.
    get_unit_factor / _UNIT_PREFIX / unit_prefix are TRANSLATED from /repo on this run (Gen.GenUnits). *)
 From Coq Require Import ZArith QArith List Bool Sorted.
 From MV Require Import Lib.ListZ Lib.Rigid Lib.OctZ Gen.GenUnits
-  Model.DisplayModel Model.DisplayExec Model.DisplayUnits Model.DisplayTriangle
-  Proofs.DisplayProofs Proofs.DisplayUnitsProofs Proofs.DisplayTriangleProofs.
+  Model.DisplayModel Model.DisplayExec Model.DisplayUnits Model.DisplayTriangle Model.DisplayShapes
+  Proofs.DisplayProofs Proofs.DisplayUnitsProofs Proofs.DisplayTriangleProofs Proofs.DisplayShapesProofs.
 Import ListNotations.
 Open Scope Z_scope.
 
@@ -115,38 +116,105 @@ Theorem C19_show_restores_style : forall (Sty : Type)
 Proof. exact show_restores_style_lem. Qed.
 Print Assumptions C19_show_restores_style.
 
-(* ---- make_Triangle, the one local shape generator that is modelled (integer vertices, coordinates x1000) *)
-(* a facet that is not magnetised along its normal is drawn as exactly its three vertices, in its plane *)
+(* ---- local shape generators that are modelled exactly *)
+(* make_Cuboid: the 8 drawn vertices are exactly the 8 corners (+-a/2, +-b/2, +-c/2) (coordinates doubled): every
+   vertex lies on the surface (on three faces) and every corner is drawn -- the model spans the full extent in
+   every direction; for ALL dimensions *)
+Theorem C19_cuboid_vertices_are_the_corners : forall a b c v,
+  In v (cuboid_vertices_x2 (a, b, c)) <->
+  exists sx sy sz, (sx = 1 \/ sx = -1) /\ (sy = 1 \/ sy = -1) /\ (sz = 1 \/ sz = -1) /\ v = (sx * a, sy * b, sz * c).
+Proof. exact cuboid_vertices_are_the_corners_lem. Qed.
+Print Assumptions C19_cuboid_vertices_are_the_corners.
+
+(* each of the 12 drawn triangles joins three different corners lying in one face of the box *)
+Theorem C19_cuboid_facets_on_faces : forall a b c f,
+  In f cuboid_facets ->
+  let '(i, j, k) := f in
+  0 <= i < 8 /\ 0 <= j < 8 /\ 0 <= k < 8 /\ i <> j /\ j <> k /\ i <> k /\
+  exists ax sg, (ax < 3)%nat /\ (sg = 1 \/ sg = -1) /\
+    let vs := cuboid_vertices_x2 (a, b, c) in
+    coord ax (nthZ (0, 0, 0) vs i) = sg * coord ax (a, b, c) /\
+    coord ax (nthZ (0, 0, 0) vs j) = sg * coord ax (a, b, c) /\
+    coord ax (nthZ (0, 0, 0) vs k) = sg * coord ax (a, b, c).
+Proof. exact cuboid_facets_on_faces_lem. Qed.
+Print Assumptions C19_cuboid_facets_on_faces.
+
+(* each of the 6 faces is tiled by exactly two of the 12 facets, split along a diagonal *)
+Theorem C19_cuboid_faces_tiled : forallb face_tiled all_faces = true /\ length cuboid_facets = 12%nat.
+Proof. exact cuboid_faces_tiled_lem. Qed.
+Print Assumptions C19_cuboid_faces_tiled.
+
+(* make_Polyline: the current line passes through the conductor's vertices, in order, at every displayed pose *)
+Theorem C19_polyline_through_points : forall (O : RigidOps) (L : RigidLaws O) (SO : ScaleOps O) (SL : ScaleLaws O SO)
+    (path : list pose) (s : selector) (f : Sc) (vertices : list V),
+  polyline_frames path s f vertices =
+  option_map (map (fun e => map (fun v => smul f (vadd (act (snd (nthZ pose0 path e)) v)
+                                                       (fst (nthZ pose0 path e)))) vertices))
+             (effective_inds (zlen path) s).
+Proof. exact (fun O L SO SL => @polyline_through_points_lem O L SO SL). Qed.
+Print Assumptions C19_polyline_through_points.
+
+(* make_Triangle as of /repo 2fa0af8 (integer facets, coordinates x1000; exact on the representable facets, see
+   Model/DisplayTriangle.v).  A facet not magnetised along its normal is drawn as exactly its three vertices *)
 Theorem C19_triangle_plain_exact : forall mag v0 v1 v2,
   tri_thickened mag v0 v1 v2 = false ->
-  make_triangle_x1000 mag v0 v1 v2 = [v3smul 1000 v0; v3smul 1000 v1; v3smul 1000 v2] /\
-  Forall (fun d => dot3 (tri_vec v0 v1 v2) (v3sub d (v3smul 1000 v0)) = 0) (make_triangle_x1000 mag v0 v1 v2).
+  make_triangle_x1000 mag v0 v1 v2 = Some [v3smul 1000 v0; v3smul 1000 v1; v3smul 1000 v2] /\
+  Forall (fun d => dot3 (tri_vec v0 v1 v2) (v3sub d (v3smul 1000 v0)) = 0)
+         [v3smul 1000 v0; v3smul 1000 v1; v3smul 1000 v2].
 Proof. exact triangle_plain_exact_lem. Qed.
 Print Assumptions C19_triangle_plain_exact.
 
 (* a facet magnetised along its normal (or not at all) is thickened: every drawn vertex is off the plane by
-   1e-3 * |vec| where vec = cross(edge, edge) is an AREA *)
-Theorem C19_triangle_thick_offset : forall mag v0 v1 v2 d,
-  tri_thickened mag v0 v1 v2 = true -> In d (make_triangle_x1000 mag v0 v1 v2) ->
-  let n := tri_vec v0 v1 v2 in
-  dot3 n (v3sub d (v3smul 1000 v0)) = dot3 n n \/ dot3 n (v3sub d (v3smul 1000 v0)) = - dot3 n n.
+   1e-3 * sqrt|vec| -- a LENGTH: with q = sqrt|vec|, q * (n.(d - 1000 v0)) = +-|vec|^2, i.e. 1000 * distance = q *)
+Theorem C19_triangle_thick_offset : forall mag v0 v1 v2 l d,
+  tri_thickened mag v0 v1 v2 = true -> make_triangle_x1000 mag v0 v1 v2 = Some l -> In d l ->
+  let n := tri_vec v0 v1 v2 in let q := tri_root v0 v1 v2 in
+  0 < q /\ q * q * (q * q) = dot3 n n /\
+  (q * dot3 n (v3sub d (v3smul 1000 v0)) = dot3 n n \/ q * dot3 n (v3sub d (v3smul 1000 v0)) = - dot3 n n).
 Proof. exact triangle_thick_offset_lem. Qed.
 Print Assumptions C19_triangle_thick_offset.
 
-(* REFUTED on the faithful model (known finding on-surface/Triangle:magnetised-along-normal-or-not,scale-dependent):
-   "every drawn vertex of a Triangle is within 4e-3 x size of its surface" fails for the facet
-   (0,0,0),(100,0,0),(0,100,0) magnetised along z: its vertices are drawn 10 units off the plane *)
-Theorem C19_triangle_on_surface_refuted :
-  ~ (forall mag v0 v1 v2, triangle_on_surface mag v0 v1 v2 = true).
-Proof. exact triangle_on_surface_refuted_lem. Qed.
-Print Assumptions C19_triangle_on_surface_refuted.
+(* POSITIVE, replaces the refutation of the code before 2fa0af8: in either branch and at EVERY size, every
+   drawn vertex is within 4e-3 x size of the facet's plane *)
+Theorem C19_triangle_on_surface : forall mag v0 v1 v2 l,
+  make_triangle_x1000 mag v0 v1 v2 = Some l -> forallb (near_plane v0 v1 v2) l = true.
+Proof. exact triangle_on_surface_lem. Qed.
+Print Assumptions C19_triangle_on_surface.
+
+(* |vec|^2 = (1000 * offset)^4 <= 12 size^4 for EVERY integer facet, representable or not: offset <= 1.87e-3 size *)
+Theorem C19_triangle_offset_bound : forall v0 v1 v2,
+  tri_nn v0 v1 v2 <= 12 * (tri_size v0 v1 v2 * tri_size v0 v1 v2) * (tri_size v0 v1 v2 * tri_size v0 v1 v2)
+  /\ 0 <= tri_size v0 v1 v2.
+Proof. exact tri_nn_bound. Qed.
+Print Assumptions C19_triangle_offset_bound.
+
+(* SCALE LAW: rescaling the facet by s > 0 rescales the whole drawn model, offset included, by s *)
+Theorem C19_triangle_scale_law : forall s mag v0 v1 v2 l, 0 < s ->
+  make_triangle_x1000 mag v0 v1 v2 = Some l ->
+  make_triangle_x1000 mag (scale_facet s v0) (scale_facet s v1) (scale_facet s v2) = Some (map (v3smul s) l).
+Proof. exact triangle_scale_law_lem. Qed.
+Print Assumptions C19_triangle_scale_law.
+
+(* RECORD (not about the current code): before 2fa0af8 the offset was 1e-3 * vec, an area; the facet
+   (0,0,0),(100,0,0),(0,100,0) magnetised along z was drawn 10 units off its plane *)
+Theorem C19_record_pre_2fa0af8_triangle_off_surface :
+  existsb (fun d => negb (near_plane (0, 0, 0) (100, 0, 0) (0, 100, 0) d))
+          (make_triangle_pre_2fa0af8_x1000 (0, 0, 1) (0, 0, 0) (100, 0, 0) (0, 100, 0)) = true.
+Proof. exact triangle_pre_2fa0af8_record. Qed.
+Print Assumptions C19_record_pre_2fa0af8_triangle_off_surface.
 
 (* ---- non-vacuity *)
-(* the same facet at unit size satisfies the on-surface specification: the specification is satisfiable and
-   the refutation is about the scale law *)
-Example C19_triangle_unit_size_nonvacuous : triangle_on_surface (0, 0, 1) (0, 0, 0) (1, 0, 0) (0, 1, 0) = true.
-Proof. exact triangle_unit_size_ok. Qed.
-Print Assumptions C19_triangle_unit_size_nonvacuous.
+(* representable thickened facets exist, in and out of the coordinate planes (the hypotheses of the triangle
+   theorems are satisfiable) *)
+Example C19_triangle_nonvacuous :
+  make_triangle_x1000 (0, 0, 1) (0, 0, 0) (100, 0, 0) (0, 100, 0)
+    = Some [(0, 0, -100); (100000, 0, -100); (0, 100000, -100); (0, 0, 100); (100000, 0, 100); (0, 100000, 100)] /\
+  tri_vec (0, 0, 0) (21, -14, 0) (21, -12, -1) = (14, 21, 42) /\
+  make_triangle_x1000 (0, 0, 0) (0, 0, 0) (21, -14, 0) (21, -12, -1)
+    = Some [(-2, -3, -6); (20998, -14003, -6); (20998, -12003, -1006);
+            (2, 3, 6); (21002, -13997, 6); (21002, -11997, -994)].
+Proof. exact triangle_examples. Qed.
+Print Assumptions C19_triangle_nonvacuous.
 
 (* the section hypotheses are satisfiable: Z^3 with signed permutations and integer scalars *)
 Example C19_algebra_nonvacuous : ScaleLaws OctOps OctScale.
